@@ -254,7 +254,12 @@ impl GRLParser {
 
         // First, parse and register all modules
         for module_match in defmodule_split_regex().find_iter(grl_text) {
-            let module_def = module_match.as_str();
+            // checked slicing: the regex engine can report offsets inside a multi-byte character
+            let module_def = grl_text
+                .get(module_match.start()..module_match.end())
+                .ok_or_else(|| RuleEngineError::ParseError {
+                    message: "defmodule block is not aligned to a character boundary".to_string(),
+                })?;
             self.parse_and_register_module(module_def, &mut result.module_manager)?;
         }
 
@@ -487,7 +492,12 @@ impl GRLParser {
         let without_comments = Self::strip_comments(grl_text);
 
         for rule_match in rule_split_regex().find_iter(&without_comments) {
-            let rule_text = rule_match.as_str();
+            // checked slicing: the regex engine can report offsets inside a multi-byte character
+            let rule_text = without_comments
+                .get(rule_match.start()..rule_match.end())
+                .ok_or_else(|| RuleEngineError::ParseError {
+                    message: "rule block is not aligned to a character boundary".to_string(),
+                })?;
             let rule = self.parse_single_rule(rule_text)?;
             rules.push(rule);
         }
